@@ -2,7 +2,7 @@
 import nat
 
 RULE = ("one case = one seed = one generated or repo model: (1) save -> load -> save gives identical bytes and mj_sizeModel equals the bytes "
-        "written (through a buffer and through the simulated disk), the flg_* members of the reloaded model equal the original's, and the "
+        "written (through a buffer, through the simulated disk, and through a real file that is overwritten by a model of another size), the flg_* members of the reloaded model equal the original's, and the "
         "same seeded 3-12 steps on the original and on the reloaded model leave every mjData array bit-identical; (2) write faults of the simulated disk: short write, ENOSPC (must be "
         "reported), torn write at a seeded length (reload must reject or give an in-bounds model), lost write, short read; (3) crash points: "
         "EVERY truncation length 0..size-1 for models up to 'maxtrunc' bytes (larger: first 600, every array boundary +-1, last 64, seeded "
